@@ -240,7 +240,7 @@ _corpus_prop("C05", ["gsc_first_true_at:run", "gsc_first_true_at:step", "gsc_fir
                      "gsc_true_with_demes_still_queued", "gsc:MetaepochLimit", "gsc:SingularEvalLimit",
                      "gsc:WeightedEvalLimit", "gsc:RootStopped", "gsc:AllStopped", "gsc:NoActiveNonroot", "gsc:Scripted"], minimize=True)
 _corpus_prop("C06", ["lsc_true", "ev:lsc", "rounds_with_sprouts", "hibernation_on", "hibernation_off"])
-_corpus_prop("C07", ["rounds_with_sprouts", "rounds_with_several_parents", "levels=3", "levels=1"])
+_corpus_prop("C07", ["rounds_with_sprouts", "rounds_with_several_parents", "levels=3", "levels=1", "custom_deme_class"])
 _corpus_prop("C08", ["rounds_with_sprouts", "rounds_where_filters_removed", "rounds_with_several_parents", "lsc_true"],
              tables=("sprout",))
 _corpus_prop("C09", ["far_atoms", "rounds_with_sprouts"], with_model=False, tables=("sprout",))
